@@ -7,6 +7,7 @@ EXPLANATION = (
 
 
 def check(ctx, prog):
+    dispatch.rule_status_exhaustive(ctx, prog)  # every status a consistency algorithm can answer is one solve_one's dispatch names
     capacity.rule_value_width(ctx, prog)  # domain values and view offsets have one integer type in all arrays that carry them
     capacity.rule_stack_height(ctx, prog, want=("R-CAPACITY",))
     search.rule_solve_one(ctx, prog, want=("R-CAPACITY",))
